@@ -190,7 +190,11 @@ def run_shard(job):
     cfg, args, timeout = job["cfg"], job["args"], job["timeout"]
     prefix = build(cfg)
     env = env_for(cfg)
-    env.update(job.get("env", {}))
+    extra_env = dict(job.get("env", {}))
+    if "MIRIFLAGS_EXTRA" in extra_env:
+        # One scheduler seed per shard, so that shards explore different schedules.
+        env["MIRIFLAGS"] = env.get("MIRIFLAGS", "") + " " + extra_env.pop("MIRIFLAGS_EXTRA") + " -Zmiri-seed=%d" % (job["shard"] + 1000 * job.get("seed", 0))
+    env.update(extra_env)
     cmd = prefix + args
     t0 = time.time()
     try:
@@ -239,7 +243,7 @@ def jobs_for(prop, tier, seed, only_leg=None):
             if leg.get("scale"):
                 args.append("scale=%d" % leg["scale"])
             jobs.append({"cfg": leg["cfg"], "args": args, "leg": li, "shard": s, "timeout": leg.get("timeout", 1800 if tier == "quick" else 7200),
-                         "env": leg.get("env", {}), "weight": leg.get("weight", 1)})
+                         "env": leg.get("env", {}), "weight": leg.get("weight", 1), "seed": seed})
     return jobs
 
 
